@@ -120,6 +120,7 @@ func NewMuxer(streamName string, config *MuxerConfig, observer IMuxerObserver) *
 func (m *Muxer) Start() {
 	Log.Infof("[%s] start hls muxer.", m.UniqueKey)
 	m.ensureDir()
+	m.continueFragSeq()
 }
 
 func (m *Muxer) Dispose() {
@@ -453,6 +454,23 @@ func (m *Muxer) ensureDir() {
 	// 注意，如果路径已经存在，则啥也不干
 	err := fslCtx.MkdirAll(m.outPath, 0777)
 	Log.Assert(nil, err)
+}
+
+// continueFragSeq
+//
+// 同名的流重新推流时，上一次推流的直播m3u8文件可能还在（比如不清理、或延时清理还没有执行）。
+// EXT-X-MEDIA-SEQUENCE不允许回退（RFC 8216 6.2.1），所以分片序号接着已有m3u8中最后一个分片往后编，而不是从0重新开始
+func (m *Muxer) continueFragSeq() {
+	content, err := fslCtx.ReadFile(m.playlistFilename)
+	if err != nil {
+		return
+	}
+	seq, err := getNextMediaSeqInM3u8(content)
+	if err != nil {
+		Log.Warnf("[%s] get next media sequence from stale m3u8 failed. err=%+v", m.UniqueKey, err)
+		return
+	}
+	m.frag = seq
 }
 
 // ---------------------------------------------------------------------------------------------------------------------
